@@ -23,14 +23,14 @@ REQUIREMENTS = [None,
 
 
 class MD(object):
-    def __init__(self, req):
-        self.req = req
+    def __init__(self, req, cats=()):
+        self.req, self.cats = req, list(cats)
 
     def attribute_requirement(self, sp, index=None):
         return self.req
 
     def entity_categories(self, sp):
-        return []
+        return list(self.cats)
 
 
 def run(tier, seed):
@@ -96,9 +96,61 @@ def run(tier, seed):
                         if k.lower() not in asked:
                             violations.append({'name': 'bounded[policy-filter]', 'what': 'attribute %r released although the SP only declares %r' % (k, asked)})
                 distinct.add(('policy', repr(sorted(ident)), repr(rest), repr(req), outcome, repr(sorted(dict(ast)))))
+    # 3. SP declarations that the identity cannot satisfy, with fail_on_missing_requested switched off: the result is the
+    #    policy-filtered best effort (possibly nothing), never the unfiltered identity
+    for ident in idents:
+        for rest in (None, {'mail': None}):
+            for req in REQUIREMENTS[1:] + [{'required': [], 'optional': [{'name': 'x', 'friendly_name': 'displayName', 'name_format': None}]}]:
+                n += 1
+                conf = {'default': {'fail_on_missing_requested': False}}
+                if rest is not None:
+                    conf['default']['attribute_restrictions'] = rest
+                ast = assertion.Assertion(copy.deepcopy(ident))
+                try:
+                    ast.apply_policy('https://sp.example.org', assertion.Policy(conf), MD(req))
+                except MissingValue:
+                    continue
+                asked = [a['friendly_name'].lower() for a in req['required'] + req['optional']]
+                for k, vals in dict(ast).items():
+                    if k.lower() not in asked:
+                        violations.append({'name': 'bounded[policy-filter]', 'what': 'fail_on_missing_requested=False: attribute %r released from %r although the SP '
+                                           'only declares %r' % (k, sorted(ident), asked)})
+                    if rest is not None and k.lower() not in rest:
+                        violations.append({'name': 'bounded[policy-filter]', 'what': 'attribute %r released although restrictions are %r' % (k, rest)})
+                    if k not in ident or any(v not in ident[k] for v in vals):
+                        violations.append({'name': 'bounded[policy-filter]', 'what': 'attribute %r / values %r not in the identity' % (k, vals)})
+                distinct.add(('besteffort', repr(sorted(ident)), repr(rest), repr(req), repr(sorted(dict(ast)))))
+    # 4. entity categories: only what the categories the SP actually carries entitle it to (a combined rule needs ALL its categories)
+    from saml2_tophat.entity_category import swamid
+    ec_ident = {'givenName': ['Ann'], 'sn': ['Smith'], 'mail': ['a@example.org'], 'c': ['SE'], 'eduPersonTargetedID': ['tid'],
+                'norEduPersonNIN': ['19'], 'displayName': ['Ann S'], 'uid': ['ann']}
+    cat_sets = [[], [swamid.RESEARCH_AND_EDUCATION], [swamid.EU], [swamid.RESEARCH_AND_EDUCATION, swamid.EU], [swamid.RESEARCH_AND_SCHOLARSHIP],
+                [swamid.SFS_1993_1153], [swamid.RESEARCH_AND_EDUCATION, swamid.SFS_1993_1153], [swamid.NREN, swamid.HEI]]
+    for cats in cat_sets:
+        for drop in [(), ('eduPersonTargetedID',), ('givenName', 'sn', 'mail', 'c', 'displayName')]:
+            n += 1
+            ident = dict((k, list(v)) for k, v in ec_ident.items() if k not in drop)
+            allowed = set(a.lower() for a in swamid.RELEASE.get('', []))
+            for key, attrs in swamid.RELEASE.items():
+                if key == '':
+                    continue
+                if (isinstance(key, tuple) and all(k in cats for k in key)) or (not isinstance(key, tuple) and key in cats):
+                    allowed |= set(a.lower() for a in attrs)
+            ast = assertion.Assertion(copy.deepcopy(ident))
+            try:
+                ast.apply_policy('https://sp.example.org', assertion.Policy({'default': {'entity_categories': ['swamid']}}), MD(None, cats))
+            except MissingValue:
+                continue
+            for k, vals in dict(ast).items():
+                if k.lower() not in allowed:
+                    violations.append({'name': 'bounded[policy-filter]', 'what': 'entity categories %r entitle the SP to %r, attribute %r was released'
+                                       % ([c.rsplit('/', 1)[-1] for c in cats], sorted(allowed), k)})
+                if k not in ident or any(v not in ident[k] for v in vals):
+                    violations.append({'name': 'bounded[policy-filter]', 'what': 'attribute %r / values %r not in the identity' % (k, vals)})
+            distinct.add(('ec', repr(cats), repr(drop), repr(sorted(dict(ast)))))
     return {'name': 'policy_filter', 'label': 'BOUNDED (C07 filter functions exercised natively; not a proof)',
-            'bound': '%d identities (<= %d attributes from a pool of %d, case variants, multi-valued, non-ASCII) x %d restriction shapes x %d SP requirement shapes'
-                     % (len(idents), max(sizes), len(IDENT_ATTRS), len(RESTRICTIONS), len(REQUIREMENTS)),
+            'bound': '%d identities (<= %d attributes from a pool of %d, case variants, multi-valued, non-ASCII) x %d restriction shapes x %d SP requirement shapes; the same identities x 2 restrictions x 4 unsatisfiable declarations with fail_on_missing_requested off; %d entity-category sets x 3 identities'
+                     % (len(idents), max(sizes), len(IDENT_ATTRS), len(RESTRICTIONS), len(REQUIREMENTS), len(cat_sets)),
             'evaluations': n, 'distinct_outcomes': len(distinct), 'violations': violations}
 
 
